@@ -72,6 +72,8 @@ def stream_case(draw, tier="quick"):
     if not axis_streams and draw(st.integers(0, 3)) == 0:
         pool = {"time": ["t_utc", "obs_time"], "z": ["depth", "pressure"], "lat": ["latitude", "y"], "lon": ["longitude", "x"]}
         extra["names"] = {k: draw(st.sampled_from(v)) for k, v in pool.items() if draw(st.integers(0, 3)) != 0}
+    if draw(st.integers(0, 3)) == 0:
+        extra["inp_masked"] = draw(st.sampled_from([0.0, -999.0, 12.125]))
     if any(v is None for ax in tbl["axes"].values() for v in ax) and draw(st.booleans()):
         extra["axes_masked"] = draw(st.sampled_from([0.0, 5.0, -9999.0]))
     return {**extra, "table": tbl, "contexts": ctxs, "style": draw(st.sampled_from(["iso", "datetime"])), "frontends": fes,
@@ -92,7 +94,7 @@ def xarray_known_mask(tbl, w, layout, deviations):
     return right
 
 
-def expected(case, single_col=None, xarray_layout=None, deviations=None):
+def expected(case, single_col=None, xarray_layout=None, deviations=None, inp_masked=None):
     """multiset of expected ContextResults + expected probe receipts."""
     tbl = case["table"]
     out, probes = [], []
@@ -106,7 +108,7 @@ def expected(case, single_col=None, xarray_layout=None, deviations=None):
                 continue
             for mod, test, kw in entries:
                 tb = tbl if single_col is None else {**tbl, "cols": {sid: tbl["cols"][single_col]}}
-                fl = sg.direct_call(tb, mask, sid, mod, test, kw)
+                fl = sg.direct_call(tb, mask, sid, mod, test, kw, inp_masked)
                 sel_ = [i for i, m in enumerate(mask) if m]
                 out.append({"stream": sid, "test": f"{mod}.{test}" if fl is not None else None, "mask": mask, "flags": fl,
                             # the arrays the ContextResult itself carries: source restricted to the window rows, or
@@ -195,11 +197,13 @@ def run_frontend(fe, case):
             return observe(list(PandasStream(renamed_df(sg.make_df(tbl)), **nkw).run(Config(cfg)))), None
         if fe == "numpy_dict":
             tested = {sid for c in case["contexts"] for sid in c["streams"]}
-            inp = {k: sg.np_col(v) for k, v in sg.columns(tbl).items() if k in tbl["cols"] or k in tested}
+            col = (lambda v: sg.np_col_masked(v, case["inp_masked"])) if case.get("inp_masked") is not None else sg.np_col
+            inp = {k: col(v) for k, v in sg.columns(tbl).items() if k in tbl["cols"] or k in tested}
             return observe(list(NumpyStream(inp=inp, time=tarr, **axes).run(Config(cfg)))), None
         if fe == "numpy_array":
             first = next(iter(tbl["cols"]))
-            return observe(list(NumpyStream(inp=sg.np_col(tbl["cols"][first]), time=tarr, **axes).run(Config(cfg)))), first
+            col = (lambda v: sg.np_col_masked(v, case["inp_masked"])) if case.get("inp_masked") is not None else sg.np_col
+            return observe(list(NumpyStream(inp=col(tbl["cols"][first]), time=tarr, **axes).run(Config(cfg)))), first
         if fe in ("xarray_coord", "xarray_var", "xarray_coord_axes", "xarray_other_dim"):
             ds = sg.make_xr(tbl, {"xarray_coord": "coord", "xarray_var": "var", "xarray_coord_axes": "coord_axes",
                                   "xarray_other_dim": "other_dim"}[fe])
@@ -331,6 +335,8 @@ def check_stream(case, rec):
         labels.append("masked_axis_arrays")
     if case.get("names"):
         labels.append("custom_axis_names")
+    if case.get("inp_masked") is not None:
+        labels.append("masked_stream_arrays")
     if not info["has_time"]:
         labels.append("no_time_column")
     elif any(float(v) != int(v) for v in case["table"]["t"]):
@@ -356,9 +362,7 @@ def check_stream(case, rec):
                      two_sided_window=two_sided, has_axes=bool(case["table"]["axes"]), **info)
             continue
         log = [dict(p) for p in sg.PROBE_LOG]
-        want, probes = expected(case, single)
-        if fe == "numpy_array":
-            pass
+        want, probes = expected(case, single, inp_masked=case.get("inp_masked") if fe in ("numpy_dict", "numpy_array") else None)
         if ms(got) != ms(want):
             # find a readable first difference
             gs, wsx = ms(got), ms(want)
